@@ -154,10 +154,11 @@ type runawayPanic struct{}
 // Host is the harness state attached to one LState.
 type Host struct {
 	goRuntimeSeen bool
-	L     *lua.LState
-	Main  *lua.LState // the main state when L is a thread created from it (OnThread)
-	Ctx   *SimContext
-	Trace []string
+	reattachAt    int64
+	L             *lua.LState
+	Main          *lua.LState // the main state when L is a thread created from it (OnThread)
+	Ctx           *SimContext
+	Trace         []string
 	// EmitStep[i] is the global step index at which Trace[i] was appended.
 	EmitStep []int64
 	ids      map[lua.LValue]int
@@ -209,6 +210,10 @@ type Options struct {
 	// Bare: nothing is called on the state before the program runs (the libraries are opened by invoking their
 	// open functions directly, not through L.Call), so the program's entry is the first call ever made on it.
 	Bare bool
+	// ReattachAtHostCall: at the n-th host call (if it is made by the main thread) the host replaces the attached
+	// context by a fresh one, as a host function that calls L.SetContext in mid-run would; the simulator then
+	// fires the new one.
+	ReattachAtHostCall int64
 }
 
 func defaultLuaOptions() lua.Options {
@@ -251,7 +256,7 @@ func NewHost(o Options) *Host {
 	} else {
 		openLibs(L)
 	}
-	h := &Host{L: L, ids: map[lua.LValue]int{}, MaxSteps: o.MaxSteps, Kind: o.Kind, At: o.At, TrackLimits: o.TrackLimits}
+	h := &Host{L: L, ids: map[lua.LValue]int{}, MaxSteps: o.MaxSteps, Kind: o.Kind, At: o.At, TrackLimits: o.TrackLimits, reattachAt: o.ReattachAtHostCall}
 	if o.WithContext && !o.OnThread {
 		h.Ctx = NewSimContext()
 		L.SetContext(h.Ctx)
@@ -343,6 +348,11 @@ func (h *Host) onDispatch(L *lua.LState) {
 // micro-step at which host-originated faults fire, and a structural check point.
 func (h *Host) hostEnter(L *lua.LState) {
 	h.HostCalls++
+	if h.reattachAt > 0 && h.HostCalls == h.reattachAt && L == h.L && h.Ctx != nil && !h.Ctx.Fired() {
+		h.Ctx = NewSimContext()
+		L.SetContext(h.Ctx)
+		h.Reattached++
+	}
 	h.checkUpvalues(L)
 	if !h.Fired && IsHostKind(h.Kind) && h.HostCalls == h.At {
 		h.Fired = true
